@@ -375,7 +375,7 @@ func c17Cofactor(c *ctx) {
 			if st == nil {
 				continue
 			}
-			for _, g := range core.WithClosures(st) {
+			for _, g := range unitFuncs(st) {
 				for _, cs := range core.Calls(g) {
 					call, ok := cs.(*ssa.Call)
 					if !ok {
